@@ -104,6 +104,8 @@ def make_batch(rng, n, spec_kind, orient, domain, scale_exp=(-20.0, 20.0), pivot
     """n tensors of one (spectrum kind, orientation) class with log-uniform scales.  pivot (0/1/2/"cycle"/None): cyclically relabel
     the axes of Haar-oriented tensors so that the routine's column-pivoting picks that row (decided with the numpy replica)."""
     from vlib.oracles.c12_ref import pivot_index
+    if spec_kind.startswith("exact:"):
+        return exact_batch(rng, n, spec_kind[6:], domain, scale_exp)
     out = onp.zeros((n, 3, 3))
     lams = onp.zeros((n, 3))
     scales = onp.zeros(n)
@@ -141,3 +143,92 @@ def unit_sym_directions():
             E[j, i] = 1.0
             out.append(E)
     return onp.array(out)
+
+
+# ----------------------------------------------------------------------------------------------------------------------
+# Exact-degeneracy surfaces of the eigen-routine's branch variables.  Entries are dyadic rationals and scales are powers of
+# two, so the stated condition (zero determinant / zero diagonal of the deviator, zero trace, equal pivot row norms, zero
+# off-diagonals, isotropy) holds bit-for-bit in the input; a Fraction-based census is reported by the property module.
+
+EXACT_KINDS = ["mean_diag", "traceless_inplane", "inplane_mean_out", "mean_rotated", "pure_shear", "shear_plus_iso",
+               "hollow", "equal_diag_block", "circulant", "swap_sym", "traceless_generic", "one_offdiag_zero",
+               "zero_trace_diag", "iso"]
+
+
+def _dy(rng, nonzero=False):
+    while True:
+        v = float(rng.integers(-8, 9)) / 2.0 ** int(rng.integers(0, 4))
+        if v != 0.0 or not nonzero:
+            return v
+
+
+def _relabel(rng, A):
+    p = list(_PERMS[int(rng.integers(6))])
+    P = onp.eye(3)[:, p]
+    return P.T @ A @ P            # exact: a relabelling of the axes
+
+
+def exact_tensor(rng, kind):
+    a, c, d, e = _dy(rng), _dy(rng), _dy(rng), _dy(rng, True)
+    g, x, y, z = _dy(rng, True), _dy(rng, True), _dy(rng, True), _dy(rng, True)
+    if kind == "mean_diag":                 # middle eigenvalue exactly the mean of the other two: det(dev) = 0
+        while c == a:
+            c = _dy(rng)
+        A = onp.diag([a, (a + c) / 2.0, c])
+    elif kind == "traceless_inplane":       # isochoric plane-strain block, exact at any scale
+        A = onp.array([[e, g, 0.0], [g, -e, 0.0], [0.0, 0.0, 0.0]])
+    elif kind == "inplane_mean_out":        # out-of-plane eigenvalue = mean of the in-plane ones
+        A = onp.array([[a, g, 0.0], [g, c, 0.0], [0.0, 0.0, (a + c) / 2.0]])
+    elif kind == "mean_rotated":            # the same spectrum in a Haar frame: det(dev) = 0 up to a few ulp
+        while c == a:
+            c = _dy(rng)
+        Q = haar_so3(rng)
+        A = Q @ onp.diag([a, (a + c) / 2.0, c]) @ Q.T
+        return 0.5 * (A + A.T)
+    elif kind == "pure_shear":
+        A = onp.array([[0.0, g, 0.0], [g, 0.0, 0.0], [0.0, 0.0, 0.0]])
+    elif kind == "shear_plus_iso":
+        A = onp.array([[a, g, 0.0], [g, a, 0.0], [0.0, 0.0, a]])
+    elif kind == "hollow":                  # zero diagonal
+        A = onp.array([[0.0, x, y], [x, 0.0, z], [y, z, 0.0]])
+        if rng.random() < 0.5:
+            A[0, 1] = A[1, 0] = 0.0
+    elif kind == "equal_diag_block":        # k0 == k1 exactly, block form
+        A = onp.array([[a, g, 0.0], [g, a, 0.0], [0.0, 0.0, d]])
+    elif kind == "circulant":               # all three pivot row norms equal; a + 2b simple, a - b double
+        A = onp.array([[a, g, g], [g, a, g], [g, g, a]])
+        if rng.random() < 0.5:
+            S = onp.diag(rng.choice([-1.0, 1.0], size=3))
+            A = S @ A @ S
+        return A
+    elif kind == "swap_sym":                # symmetric under the exchange of two axes: two pivot row norms exactly equal
+        A = onp.array([[a, x, y], [x, a, y], [y, y, d]])
+    elif kind == "traceless_generic":
+        A = onp.array([[a, x, y], [x, c, z], [y, z, -(a + c)]])
+    elif kind == "one_offdiag_zero":
+        A = onp.array([[a, x, y], [x, c, 0.0], [y, 0.0, d]])
+    elif kind == "zero_trace_diag":
+        A = onp.diag([a, c, -(a + c)])
+    elif kind == "iso":
+        A = onp.eye(3) * (a if a != 0.0 else 1.0)
+        return A
+    else:
+        raise ValueError(kind)
+    return _relabel(rng, A)
+
+
+def exact_batch(rng, n, kind, domain, scale_exp=(-20.0, 20.0)):
+    lo = int(math.ceil(scale_exp[0] * math.log2(10.0)))
+    hi = int(math.floor(scale_exp[1] * math.log2(10.0)))
+    out = onp.zeros((n, 3, 3))
+    scales = onp.zeros(n)
+    for i in range(n):
+        A = exact_tensor(rng, kind)
+        if domain in ("pd", "psd"):
+            w = onp.linalg.eigvalsh(A)
+            t = math.ceil(max(-w[0], 0.0)) + 1.0 + float(rng.integers(0, 8)) / 4.0     # dyadic shift: the deviator is unchanged
+            A = A + t * onp.eye(3)
+        s = 2.0 ** int(rng.integers(lo, hi + 1))
+        out[i] = A * s
+        scales[i] = s
+    return out, None, scales
